@@ -786,6 +786,21 @@ def stopper_free_cycle(nodes, o):
     return False
 
 
+def forward_only_cycle(nodes):
+    """a cycle made of by-passed (unnamed, non-empty) Forward/Located elements only: e <<= e, a <<= b; b <<= a"""
+    byp = [n["kind"] == "KFwd" and not n["custom"] and bool(n["kids"]) for n in nodes]
+    for s in range(len(nodes)):
+        if not byp[s]:
+            continue
+        i, steps = s, 0
+        while byp[i] and steps <= len(nodes):
+            i = nodes[i]["kids"][0]
+            steps += 1
+            if i == s:
+                return True
+    return False
+
+
 def on_cycle(nodes, i):
     seen, stack = set(), list(nodes[i]["kids"])
     while stack:
@@ -815,6 +830,8 @@ def run_case_impl(case, html=True):
 def cause_of(cls, nodes, o, out, model=None):
     """refines a violation class by the grammar-shape condition that explains it on the unchanged tree"""
     if cls == "recursion-error":
+        if forward_only_cycle(nodes):
+            return "cycle-of-unnamed-forwards-only"
         if stopper_free_cycle(nodes, o):
             return "cycle-without-named-element"
         if model is not None and model["ok"]:
@@ -861,7 +878,7 @@ def classify(ctx, case, nodes, unmodelled, impl, model, agreed):
         tag = cls + (":" + cause if cause else "")
         if unmodelled == "stop_on" and cls == "token-not-shown":
             # the converter builds temporary elements for stop_on and keys its tables by id(): CPython may reuse the id
-            key = "stop-on-temporaries:" + tag
+            key = "stop-on-temporaries:" + cls
         elif cls in predicted:
             key = "model-predicted:" + tag
         else:
@@ -1076,7 +1093,10 @@ def search(ctx, reasons):
                     cause = cause_of(cls, nodes, c["opts"], impl)
                     tag = cls + (":" + cause if cause else "")
                     # without a model there is no prediction: fall back to the class keys of the known findings
-                    ctx.violation("model-predicted:" + tag, "%s on grammar %s opts=%s: %s (model unavailable)" % (
+                    key = "model-predicted:" + tag
+                    if key not in ctx.known:
+                        key = "unpredicted:%s:%s" % (tag, case_id(c))
+                    ctx.violation(key, "%s on grammar %s opts=%s: %s (model unavailable)" % (
                         cls, c["label"], json.dumps(c["opts"], sort_keys=True), detail), {"kind": "case", "case": c})
                 ctx.stat("search_cases")
         if any(v["found_input"] for v in ctx.violations):
